@@ -107,7 +107,7 @@ class DocGen:
 
     def __init__(self, rng, ds, de, cfg, safe_text=True, unit=None):
         self.rng, self.ds, self.de, self.cfg = rng, ds, de, cfg
-        self.unit = unit or rng.choice(["  ", "    ", "\t"])
+        self.unit = unit or rng.choice(["  ", "    ", "\t", "  ", "\t", " \t"])
         self.safe_text = safe_text
         self.strict_unwrap = False
         self.stats = {"elements": 0, "ready": 0, "pending": 0, "skip": 0, "unreg": 0, "unwrap": 0,
